@@ -94,17 +94,18 @@ def base_env(extra=None, backtrace="0"):
     return env
 
 
-def run(args, cwd, env=None, timeout=TIMEOUT, binary=None, stdin=None):
+def run(args, cwd, env=None, timeout=TIMEOUT, binary=None, stdin=None, merge=False):
     """Run `mscript <args>` in cwd."""
     cmd = [binary or build.BIN] + list(args)
     try:
         p = subprocess.Popen(cmd, cwd=cwd, env=base_env(env), stdout=subprocess.PIPE,
-                             stderr=subprocess.PIPE, stdin=subprocess.DEVNULL,
+                             stderr=(subprocess.STDOUT if merge else subprocess.PIPE), stdin=subprocess.DEVNULL,
                              start_new_session=True)
     except OSError as e:
         return Res(-999, "", f"spawn failed: {e}")
     try:
         out, err = p.communicate(timeout=timeout)
+        err = err or b""
         return Res(p.returncode, strip_ansi(out.decode("utf-8", "replace")),
                    strip_ansi(err.decode("utf-8", "replace")))
     except subprocess.TimeoutExpired:
@@ -113,6 +114,7 @@ def run(args, cwd, env=None, timeout=TIMEOUT, binary=None, stdin=None):
         except OSError:
             pass
         out, err = p.communicate()
+        err = err or b""
         return Res(-9, strip_ansi(out.decode("utf-8", "replace")),
                    strip_ansi(err.decode("utf-8", "replace")), timeout=True)
 
